@@ -69,6 +69,9 @@ TRUSTED_EXTRA = (
     "C10: exp/log of the smooth aggregations are not modelled in the executable model (noncomputable real-analysis model in Analysis/C10Aggregation.lean)",
     "C10: sessions - the current parameters of a function object are what its public getters return after each edit (read back exactly); "
     "objects hold their parameters by value in the model (the harness gives every object its own arrays: no aliasing between objects)",
+    "C10: storage model (Store/Arr/SExpr.run/Hist of Model/C10.lean) - its allocation points are transcribed by hand from the code of the "
+    "value path (FunctionRestriction.__extend_subvect, LinearCompositeFunction, operators, negation, Concatenate); it is compared on every "
+    "run with the values and the np.shares_memory pattern of the real returned arrays; Jacobian arrays and the other node kinds are outside it",
 )
 
 # --------------------------------------------------------------------------- generation
@@ -1670,11 +1673,15 @@ def run(ctx) -> Result:
         "polynomial/linear/quadratic leaves with small integer coefficients; second operands: function of the same dimension, scalar "
         "function, number, array) evaluated at 2 integer or half-integer points, each twice and in both call orders; "
         "a case is non-trivial when its tree has depth >= 2; distinct by (tree, points). "
+        "About 16 % of the leaves with m <= n are user functions returning their input array or a basic-slice view of it; 12 % of the operator / "
+        "even concatenation nodes use ONE function object twice (S(Ax), S(Bx) | restrictions of S at different frozen values | S, S | S, S(Bx)); "
+        "every returned array of a case is kept and re-read after the later calls. "
         "Sessions (harness/c10_hist.py): one tree (all node kinds, KS/IKS roots included), one point buffer owned by the caller, a script of "
         "7-14 steps among: in-place update of the buffer / another array (equal or new content), evaluate / jac / func of the root or of a "
         "sub-expression, edit of a public parameter of a leaf (quad_coeffs, linear_coeffs, coefficients, value_at_zero by setter, whole-array "
         "or single-entry in-place write; func/jac of a user function), tree kept (call-time paths only) or rebuilt; every session is non-trivial, "
-        "distinct by (tree, script)"
+        "distinct by (tree, script); storage sessions: trees of the fragment of the storage model (views, new arrays, restriction, linear "
+        "composition, operators, negation, concatenation, shared objects), 5-10 steps of buffer writes and evaluate/func/jac"
     )
     res.assumptions = [
         "evaluation points keep every divisor >= 1/2 in magnitude and avoid the singular set x_i = x_hat_i of convex linearisations",
